@@ -332,7 +332,7 @@ func checkC08(c *Ctx) {
 	c.RuleT("", in, map[string]bool{"T1": true, "T2": true})
 	c.ruleBareRead("G10.fullread", in)
 	e := c.accept()
-	e.Require("A-d", rl, []*fact{factKnownType})
+	e.Require("A-d", rl, []*fact{factKnownType, factWholeEntries})
 	// A-d2: SHA-256 lists only with Size == 48
 	c.sha256Gate(rl)
 	// database decoder: the only success exit is the clean end
@@ -344,6 +344,77 @@ func checkC08(c *Ctx) {
 	c.R.Floor("G4.clean-end", 1)
 	c.R.Floor("G4.eof", 1)
 }
+
+// factWholeEntries: the list size is the header plus a whole number of entries,
+// (ListSize - 28) % Size == 0 or 28 + ((ListSize-28)/Size)*Size == ListSize.
+var factWholeEntries = &fact{id: "whole-entries", what: "the list size is 28 plus a whole number of signatures of the list's signature size",
+	direct: func(c *Ctx, fn *ssa.Function, ce ir.CondEdge) bool {
+		cmp, ok := ce.Cond.(*ssa.BinOp)
+		if !ok || (cmp.Op != token.EQL && cmp.Op != token.NEQ) || ce.Truth != (cmp.Op == token.EQL) {
+			return false
+		}
+		isBody := func(v ssa.Value) bool { // ListSize - 28
+			a := affineOf(v, 0)
+			if a.K != -28 || len(a.T) != 1 {
+				return false
+			}
+			for sym, cf := range a.T {
+				if cf != 1 || !strings.HasSuffix(sym, ".ListSize") {
+					return false
+				}
+			}
+			return true
+		}
+		isSize := func(v ssa.Value) bool { return ir.FieldID(ir.StripConv(v)) == sigPkg+".SignatureList.Size" }
+		// (ListSize-28) % Size == 0
+		for _, side := range [][2]ssa.Value{{cmp.X, cmp.Y}, {cmp.Y, cmp.X}} {
+			if k, isK := ir.ConstInt(side[1]); isK && k == 0 {
+				if rem, isB := ir.StripConv(side[0]).(*ssa.BinOp); isB && rem.Op == token.REM && isBody(rem.X) && isSize(rem.Y) {
+					return true
+				}
+			}
+		}
+		// 28 + ((ListSize-28)/Size)*Size == ListSize, in any arrangement of the sum
+		var mul *ssa.BinOp
+		var find func(v ssa.Value, depth int)
+		find = func(v ssa.Value, depth int) {
+			if depth > 6 {
+				return
+			}
+			switch x := ir.StripConv(v).(type) {
+			case *ssa.BinOp:
+				if x.Op == token.MUL {
+					for _, p := range [][2]ssa.Value{{x.X, x.Y}, {x.Y, x.X}} {
+						if q, isQ := ir.StripConv(p[0]).(*ssa.BinOp); isQ && q.Op == token.QUO && isBody(q.X) && isSize(q.Y) && isSize(p[1]) {
+							mul = x
+						}
+					}
+				}
+				find(x.X, depth+1)
+				find(x.Y, depth+1)
+			}
+		}
+		find(cmp.X, 0)
+		find(cmp.Y, 0)
+		if mul == nil {
+			return false
+		}
+		d := affineOf(cmp.X, 0).add(affineOf(cmp.Y, 0), -1)
+		// d must be ±(m + 28 - ListSize) with m the product's symbol
+		m := affineOf(mul, 0)
+		if len(m.T) != 1 {
+			return false
+		}
+		want := m.clone()
+		want.K = 28
+		for sym := range d.T {
+			if strings.HasSuffix(sym, ".ListSize") {
+				want.T[sym] = -1
+				want.Sym[sym] = d.Sym[sym]
+			}
+		}
+		return d.equal(want) || d.equal(want.scale(-1))
+	}}
 
 var factKnownType = &fact{id: "known-type", what: "the list's signature type is one of the handled types (unsupported types are errors)",
 	direct: func(c *Ctx, fn *ssa.Function, ce ir.CondEdge) bool {
